@@ -259,3 +259,12 @@ def probe(eng, ureg, model, x, tag, full=True):
         q = ureg.Quantity(x, "m")
         P(q.is_compatible_with("s") == ("T" in reach), f"{tag}:is_compatible_with(s)")
         P(q.is_compatible_with("g") == ("M" in reach), f"{tag}:is_compatible_with(g)")
+        # the same questions asked of units and of the registry
+        um = ureg.Unit("m")
+        P(um.is_compatible_with("s") == ("T" in reach), f"{tag}:Unit.is_compatible_with(s)")
+        P(um.is_compatible_with(ureg.Unit("g")) == ("M" in reach), f"{tag}:Unit.is_compatible_with(Unit g)")
+        P(ureg.is_compatible_with("m", "s") == ("T" in reach), f"{tag}:registry.is_compatible_with(m,s)")
+        gotu = {str(uu) for uu in um.compatible_units()} - {"kku"} - set(model.late_units)
+        P(gotu == want_names, f"{tag}:Unit.compatible_units")
+        gotq = {str(uu) for uu in q.compatible_units()} - {"kku"} - set(model.late_units)
+        P(gotq == want_names, f"{tag}:Quantity.compatible_units")
